@@ -26,8 +26,9 @@
        exist ([C06_d_raw_pkh_remark]).
      * the per-base-type invariant all of the above are projections of — [C06_frame_invariant].
    The model's [type_of] has no context argument (cast_dupif never claims u), so no prediction
-   above needs MINIMALIF; "non-empty" (not "script-true") is what n promises: a 32-byte all-zero
-   preimage is a satisfying non-true top element when [wf]'s hash side condition is dropped.
+   above needs MINIMALIF; (Fr), (Z/O), (U) need no hypothesis on the environment at all (they hold
+   under every signature version). "Non-empty" (not "script-true") is what n promises: a 32-byte
+   negative-zero preimage is a satisfying non-true top element ([C06_n_nonempty_not_true_remark]).
    NOT yet proved (kept visible): Theorem B's table direction (a successful execution used a
    table entry), f / e / s (statements about all stacks; s and f are being proved in
    Proofs/Signed*.v). The per-run check enumerates input stacks for those. *)
@@ -119,6 +120,14 @@ Theorem C06_n :
   end.
 Proof. exact n_sound. Qed.
 Print Assumptions C06_n.
+
+(* n is "not the empty vector", not "script-true": a negative-zero preimage satisfies a hash fragment *)
+Theorem C06_n_nonempty_not_true_remark :
+  exists (e : env) (ke : keyenv) (m : ms) (t : ty) (x : bytes),
+    nhyp e /\ type_of m = ROk t /\ wf e ke m /\ isn (c_input (t_corr t)) = true /\ c_base (t_corr t) = BB /\
+    exec e (enc ke m) (mkSt [x] []) = Ok (mkSt [[1%N]] []) /\ x <> [] /\ truthy x = false.
+Proof. exact n_is_nonempty_not_script_true. Qed.
+Print Assumptions C06_n_nonempty_not_true_remark.
 
 (* ---- every input stack: u ---- *)
 Theorem C06_u :
